@@ -114,17 +114,25 @@ def run(ctx):
     # ---------- header chains + purity of transformations ----------
     reqs, checks = [], []
     nchains = 120 if quick else 1200
+    cheap = ['flip', 'shuffle', 'none-like']
     for i in range(nchains):
         F0 = rng.choice(gens)()
         if i % 7 == 0:
             F0.header['note'] = 'user entry\twith tab'
         chain = [rng.choice(transformations()) for _ in range(rng.randint(1, 3 if quick else 4))]
+        if i % 10 == 3:
+            # a long chain (the theorem covers every length; the numbering loop must too): size-preserving steps only
+            F0 = rand_cnf()
+            k1 = [t for t in transformations() if t[0] in ('flip', 'shuffle')]
+            one = [('xor', lambda F: cnfgen.XorSubstitution(F, 1)), ('maj', lambda F: cnfgen.MajoritySubstitution(F, 1)),
+                   ('or', lambda F: cnfgen.OrSubstitution(F, 1)), ('eq', lambda F: cnfgen.AllEqualSubstitution(F, 1))]
+            chain = [rng.choice(k1 + one) for _ in range(rng.randint(11, 15))]
         F = F0
         steps = []
         ok = True
         for name, t in chain:
             before = snap_formula(F)
-            if len(before['clauses']) > 400 or before['numvar'] > 60:
+            if len(before['clauses']) > 400 or before['numvar'] > 60:   # (long chains use size-preserving steps)
                 ok = False
                 break
             st = random.getstate()
@@ -201,7 +209,7 @@ def run(ctx):
     calls = []
     for _ in range(12 if quick else 120):
         G, B, D = small_graph(rng.randint(2, 5)), small_bip(rng.randint(1, 4), rng.randint(1, 4)), small_dag(rng.randint(1, 5))
-        ch = [rng.randint(0, 1) for _ in range(G.number_of_vertices())]
+        ch = [rng.randint(0, 1) for _ in range(rng.choice([G.number_of_vertices(), G.number_of_vertices(), rng.randint(0, G.number_of_vertices()), 0, 1]))]
         pat = rng.sample(range(0, 6), rng.randint(0, 4))
         lits = [rng.choice([1, -1]) * v for v in rng.sample(range(1, 9), rng.randint(0, 5))]
         pl = [[rng.choice([1, -1]) * v for v in range(1, 5)]]
